@@ -376,7 +376,7 @@ func tryReplay(o *checkOpts, ob *Obligation) *replayResult {
 	outB, _ := cmd.CombinedOutput()
 	out := string(outB)
 	res.Output = trunc2(out, 4000)
-	if strings.HasPrefix(ob.Kind, "safety") {
+	if strings.HasPrefix(ob.Kind, "safety") || ob.Kind == "call-pre" {
 		res.Confirmed = strings.Contains(out, "REPLAY-PANIC")
 		return res
 	}
